@@ -30,7 +30,8 @@ import sqlalchemy.orm
 P = 'C03'
 BUDGETS = {'C03': (55, 1500, 2)}
 LEVELS = {'C03': 'fault_enumeration'}
-SHRINK = {'C03': (60, 25)}      # one re-execution = ~20 forked crawls
+SHRINK = {'C03': (60, 25), 'C02': (60, 40)}
+WALL_LIMIT = {('C03', 'quick'): 240, ('C03', 'thorough'): 3000, ('C02', 'quick'): 240, ('C02', 'thorough'): 240}      # one re-execution = ~20 forked crawls
 PROBES = {'C03': ['kill_points_total', 'kill_at_sql', 'kill_at_commit', 'kill_at_request', 'kill_at_delivery', 'kill_before_first_request',
                   'kill_with_in_progress_rows', 'kill_between_status_and_children', 'second_kill', 'resumed_runs', 'concurrency>1',
                   'workload_fully_enumerated', 'run2_refetch_of_in_progress']}
